@@ -22,6 +22,24 @@ CLAIMED = {
         ref='4/C08'),
 }
 
+CLAIMED.update({
+    'C02': dict(
+        text='Bounded model checking of bind_command_arguments / expand_by_wrapper / reparse_arguments MIR: for every argument template shape of literal, '
+             '${name} and \\${name} segments (one solver run per shape, names and values symbolic over all Unicode, symbolic environment of two variables, '
+             'symbolic position among neighbours) the command receives exactly one argument equal to the verbatim single-pass substitution; %{name} '
+             'yields exactly the space-separated words.',
+        note='Bounds: quick all shapes <= 2 segments + 10 seeded 3-segment shapes, names <= 2, values <= 4; thorough all 155 shapes <= 3 segments, values <= 5. '
+             'Spread values exclude " and #. One open known finding (escaped name containing \\$ \\% ${ %{). ' + TRUST,
+        ref='4/C02'),
+    'C06': dict(
+        text='Bounded model checking of eval_condition_for_slice / is_true / the not command MIR against an and-of-ors stack specification: every well-formed '
+             'token sequence (symbolic token kinds, symbolic atoms) within the bound evaluates to the specified value; truthiness table on arbitrary values; '
+             'if/elseif/while are checked to call the same evaluator (structural check on the current MIR).',
+        note='Bounds: quick <= 8 tokens depth <= 3 atoms <= 5 chars; thorough <= 11 tokens (13 with short atoms, depth 4). Atom alphabet ASCII + 3 case-less '
+             'non-ASCII representatives (to_lowercase model). ' + TRUST,
+        ref='4/C06'),
+})
+
 NOT_APPLICABLE = {
     'C17': 'round-trips live in third-party crates (base64, serde_json, java-properties, std fmt/from_str_radix) that are not in the encoded MIR; '
            'modelling them by specification would make decode(encode(x))=x true by construction (DESIGN.md section 5)',
